@@ -12,7 +12,8 @@
                                                              nothing is left), no_leak_no_sharing
                                                              (between operations: live instances /
                                                              allocations = those owned by exactly
-                                                             one container variable)
+                                                             one container variable),
+                                                             ledger_accepts_every_prefix
    "copies made by construction or assignment (including assignment of a container to itself)
     are deep and independent of the source"                  copies_are_deep, no_leak_no_sharing,
                                                              step_refines_spec (x = x is the
@@ -97,25 +98,19 @@ Theorem alias_args_as_if_copied : forall (nv : nat) (ops : list op) (t : nat),
 Proof. exact alias_args_as_if_copied_proof. Qed.
 Print Assumptions alias_args_as_if_copied.
 
+(* At every moment of every history the independent ledger accepts the log so far, and its live
+   sets are the world's: nothing was constructed twice, used while dead or destroyed twice. *)
+Theorem ledger_accepts_every_prefix : forall (nv : nat) (ops : list op) (st : state),
+  run (init nv) ops = Ok st ->
+  exists L, ledger_of (log (sw st)) = Some L /\ llive L = dom (heap (sw st)) /\ lblive L = blks (sw st).
+Proof. exact ledger_accepts_every_prefix_proof. Qed.
+Print Assumptions ledger_accepts_every_prefix.
+
 (* ---------------------------------------------------------------------------------------- *)
 (* non-vacuity                                                                                *)
 (* ---------------------------------------------------------------------------------------- *)
-(* a history with self-assignment, append(a[0]) at the growth boundary, resize(n, a[1]),
-   List::append(self), a MultiMap copy, Map::insert(self), HashSet::remove(self) *)
-Definition ex_hist : list op :=
-  [ONew 0 KArray; OIns 0 PBack (AVal 0) (AVal 5); OIns 0 PBack (AVal 0) (AVal 6); OIns 0 PBack (AVal 0) (AVal 7);
-   OIns 0 PBack (AVal 0) (AValOf 0 0); OResize 0 9 (AValOf 0 1); OAssign 0 0; OAddAll 0 PBack 0; ORemAt 0 2;
-   OCopyNew 1 0; ODel 0; ODel 1;
-   ONew 0 KList; OIns 0 PBack (AVal 0) (AVal 1); OIns 0 PFront (AVal 0) (AValOf 0 0); OAddAll 0 PBack 0;
-   OAddAll 0 PFront 0; OAssign 0 0; ODel 0;
-   ONew 0 KMultiMap; OIns 0 PBack (AVal 3) (AVal 1); OIns 0 PBack (AVal 3) (AValOf 0 0); OCopyNew 1 0;
-   OAssign 1 1; OAssign 0 1; ODel 0; ODel 1;
-   ONew 0 KMap; OIns 0 PBack (AVal 2) (AVal 1); OIns 0 PBack (AKey 0 0) (AVal 9); OAddAll 0 PBack 0; OAssign 0 0;
-   ONew 1 KHashSet; OIns 1 PBack (AVal 4) (AVal 0); OIns 1 PFront (AVal 5) (AVal 0); ORemAll 1 1; OAssign 1 1;
-   ONew 2 KPoolMap; OIns 2 PBack (AVal 1) (AVal 0); ORemKey 2 (AKey 2 0)].
-
 Example lifetimes_nonvacuous :
-  match run (init 3) ex_hist with
+  match run (init 3) example_history with
   | Ok st => match finish st with
              | Ok st' => well_bracketed (log (sw st')) && Nat.ltb 150 (length (log (sw st'))) &&
                          Nat.eqb (length (heap (sw st))) 7
